@@ -270,11 +270,22 @@ func genTrivia(r *Rng, must bool) string {
 	return b.String()
 }
 
+// genTriviaA: trivia after a token that ends by itself (a delimiter, a closing quote, '+', start of text):
+// a comment may then follow with nothing in between ("a;/*c*/b;", "'x'+// c"), which after an unquoted
+// word it may not (the word would swallow it)
+func genTriviaA(r *Rng, must bool) string {
+	t := genTrivia(r, must)
+	if strings.HasPrefix(t, " /") && r.Chance(50) {
+		return t[1:]
+	}
+	return t
+}
+
 func genYArg(r *Rng, tier string, n int, emit func(Case)) {
 	for i := 0; i < n; i++ {
 		v := genArgValue(r)
 		var src strings.Builder
-		src.WriteString("x:m {" + genTrivia(r, false))
+		src.WriteString("x:m {" + genTriviaA(r, false))
 		if r.Chance(50) {
 			src.WriteString("\n" + indentTo(r, r.Intn(12)))
 		}
@@ -297,6 +308,7 @@ func genYArg(r *Rng, tier string, n int, emit func(Case)) {
 		}
 		v = strings.Join(pvs, "")
 		var pieces []any
+		lastQuoted := false
 		for k := 0; k < np; k++ {
 			pv := pvs[k]
 			mode := r.Intn(4)
@@ -329,15 +341,21 @@ func genYArg(r *Rng, tier string, n int, emit func(Case)) {
 				txt, desc = spellPiece(r, pv, lp, mode)
 			}
 			src.WriteString(txt)
+			lastQuoted = strings.HasPrefix(txt, "'") || strings.HasPrefix(txt, "\"")
 			pieces = append(pieces, desc)
 			if k != np-1 {
-				src.WriteString(genTrivia(r, false) + "+" + genTrivia(r, false))
+				src.WriteString(genTriviaA(r, false) + "+" + genTriviaA(r, false))
 				if r.Chance(40) {
 					src.WriteString("\n" + indentTo(r, r.Intn(14)))
 				}
 			}
 		}
-		src.WriteString(genTrivia(r, false) + ";" + genTrivia(r, false) + "}")
+		if lastQuoted {
+			src.WriteString(genTriviaA(r, false))
+		} else {
+			src.WriteString(genTrivia(r, false))
+		}
+		src.WriteString(";" + genTriviaA(r, false) + "}")
 		text := src.String()
 		emit(Case{"k": "yparse", "hex": hex.EncodeToString([]byte(text)), "text": text, "pieces": pieces, "value": hex.EncodeToString([]byte(v))})
 	}
@@ -369,6 +387,7 @@ func genTree(r *Rng, depth int) *genNode {
 func (n *genNode) spell(r *Rng, b *strings.Builder, hasArg bool) {
 	n.pos = b.Len()
 	b.WriteString(n.kw)
+	quoted := false
 	if n.arg != "" || r.Chance(20) {
 		b.WriteString(genTrivia(r, true))
 		s := b.String()
@@ -377,22 +396,33 @@ func (n *genNode) spell(r *Rng, b *strings.Builder, hasArg bool) {
 		if !multilineSafe(n.arg) || strings.Contains(n.arg, "'") {
 			esc := strings.NewReplacer("\\", "\\\\", "\"", "\\\"", "\n", "\\n", "\t", "\\t").Replace(n.arg)
 			b.WriteString("\"" + esc + "\"")
+			quoted = true
+		} else if rs := []rune(n.arg); len(rs) >= 2 && r.Chance(25) {
+			// the same value as two single-quoted pieces joined by '+', trivia on both sides of the '+'
+			i := 1 + r.Intn(len(rs)-1)
+			b.WriteString("'" + string(rs[:i]) + "'" + genTriviaA(r, false) + "+" + genTriviaA(r, false) + "'" + string(rs[i:]) + "'")
+			quoted = true
 		} else {
 			txt, _ := spellPiece(r, n.arg, lp, mode)
 			b.WriteString(txt)
+			quoted = strings.HasPrefix(txt, "'") || strings.HasPrefix(txt, "\"")
 		}
 	}
-	b.WriteString(genTrivia(r, false))
+	if quoted {
+		b.WriteString(genTriviaA(r, false))
+	} else {
+		b.WriteString(genTrivia(r, false))
+	}
 	if len(n.kids) == 0 && r.Chance(70) {
 		b.WriteString(";")
 		return
 	}
 	b.WriteString("{")
 	for _, k := range n.kids {
-		b.WriteString(genTrivia(r, false))
+		b.WriteString(genTriviaA(r, false))
 		k.spell(r, b, true)
 	}
-	b.WriteString(genTrivia(r, false) + "}")
+	b.WriteString(genTriviaA(r, false) + "}")
 }
 
 func (n *genNode) dump(text string) string {
@@ -427,9 +457,9 @@ func genYTree(r *Rng, tier string, n int, emit func(Case)) {
 			t = genTree(r, 1+r.Intn(maxDepth))
 		}
 		var b strings.Builder
-		b.WriteString(genTrivia(r, false))
+		b.WriteString(genTriviaA(r, false))
 		t.spell(r, &b, true)
-		b.WriteString(genTrivia(r, false))
+		b.WriteString(genTriviaA(r, false))
 		text := b.String()
 		emit(Case{"k": "yparse", "hex": hex.EncodeToString([]byte(text)), "text": text, "expect": "ok leak=0 " + t.dump(text)})
 	}
